@@ -130,4 +130,4 @@ def named_const(eng, c, path):
     return None
 
 
-from . import m_core, m_str, m_seq, m_iter, m_map, m_fmt, m_daac, m_io, m_bincode      # noqa: E402,F401
+from . import m_core, m_str, m_seq, m_iter, m_map, m_fmt, m_daac, m_io, m_bincode, m_liblinear      # noqa: E402,F401
